@@ -144,6 +144,7 @@ sstat MainSolver::simplifyFormulas() {
     status = s_Undef;
     for (std::size_t i = firstNotSimplifiedFrame; i < frames.frameCount() && status != s_False; i++) {
         PreprocessingContext context{.frameCount = i, .perPartition = trackPartitions()};
+        OPENSMT_VERIF(verif::stopPoint(3));
         preprocessor.prepareForProcessingFrame(i);
         firstNotSimplifiedFrame = i + 1;
         if (context.perPartition) {
@@ -263,6 +264,7 @@ std::unique_ptr<Model> MainSolver::getModel() {
     if (!config.produce_models()) { throw ApiException("Producing models is not enabled"); }
     if (status != s_True) { throw ApiException("Model cannot be created if solver is not in SAT state"); }
 
+    OPENSMT_VERIF(verif::stopPoint(4));
     ModelBuilder modelBuilder{logic};
     smt_solver->fillBooleanVars(modelBuilder);
     thandler->fillTheoryFunctions(modelBuilder);
